@@ -461,7 +461,7 @@ func (c *EWCase) Run() string {
 		// the 32-bit routines are third-party ports (math32): their handling of
 		// non-finite arguments and overflow is not asserted
 		base := eq
-		eq = func(a, b interface{}) bool { return base(a, b) || !finiteVal(a) || !finiteVal(b) }
+		eq = func(a, b interface{}) bool { return base(a, b) || (!finiteVal(a) && !finiteVal(b)) }
 	}
 	eqU := func(a, b interface{}) bool { return isUndef(b) || eq(a, b) }
 	if rd.Dtype() != resDT.T {
@@ -662,7 +662,7 @@ func awkward32(v interface{}) bool {
 		if a < 0 {
 			a = -a
 		}
-		return !finiteVal(x) || (a != 0 && a < 1.2e-38) || a > 1e37
+		return !finiteVal(x) || (a != 0 && a < 1.2e-38) || a > 1e6 // math32's range reduction goes astray for huge arguments
 	case complex64:
 		return awkward32(real(x)) || awkward32(imag(x))
 	}
